@@ -30,6 +30,23 @@ var procsList = []int{1, 2, 5}
 // and negative counts must behave like one decoder (fresh and resumed scanners alike)
 var oddProcs = []int{0, -1, -7}
 
+// how the bytes reach the decoder (pbfrun.Job.Reader), rotating over the scans of a run: plain
+// bytes.Reader, last bytes together with io.EOF, one byte per Read, short chunks, short chunks with
+// (0, nil) now and then.  The model does not depend on it: io.ReadFull hides all of that.
+var readerRot int
+var readerUse = map[int]int{}
+
+func nextReader() int {
+	readerRot++
+	k := []int{0, 1, 0, 2, 3, 1, 4, 0}[readerRot%8]
+	readerUse[k]++
+	lastReader = k
+	return k
+}
+
+// lastReader: the reader kind of the scan(s) started last (recorded in the case descriptions)
+var lastReader int
+
 type file struct {
 	seed   int64
 	desc   *pbfgen.FileDesc
@@ -123,7 +140,7 @@ func sharedCase(w *wire.Writer, r *pbfrun.Runner, f *file, procs int) (*wire.Cas
 	for i := range units {
 		units[i] = i
 	}
-	obs, err := r.Run(pbfrun.Job{Data: f.data, Procs: procs, Mode: "shared", Units: units})
+	obs, err := r.Run(pbfrun.Job{Reader: nextReader(), Data: f.data, Procs: procs, Mode: "shared", Units: units})
 	if err != nil {
 		return nil, err
 	}
@@ -210,7 +227,7 @@ func jobFilter(skip [3]bool) [3]bool {
 
 func traceCase(w *wire.Writer, r *pbfrun.Runner, f *file, procs int, skip [3]bool) (*wire.Case, error) {
 	fds := pbfrun.Describe(f.desc, f.data, f.frames, skip, nil)
-	obs, err := r.Run(pbfrun.Job{Data: f.data, Procs: procs, Skip: jobSkip(skip), Filter: jobFilter(skip), Mode: "trace", Canon: true})
+	obs, err := r.Run(pbfrun.Job{Reader: nextReader(), Data: f.data, Procs: procs, Skip: jobSkip(skip), Filter: jobFilter(skip), Mode: "trace", Canon: true})
 	if err != nil {
 		return nil, err
 	}
@@ -218,7 +235,7 @@ func traceCase(w *wire.Writer, r *pbfrun.Runner, f *file, procs int, skip [3]boo
 	if o.Crash || o.Hang || o.Skipped {
 		c := &wire.Case{Class: "trace", OracleFail: "crash or hang on a valid file: " + o.CrashMsg}
 		c.Int(1)
-		c.Desc = map[string]interface{}{"kind": "trace", "crash": o.CrashMsg, "file": f.desc}
+		c.Desc = map[string]interface{}{"reader_kind": lastReader, "kind": "trace", "crash": o.CrashMsg, "file": f.desc}
 		return c, nil
 	}
 	c := &wire.Case{Class: "trace"}
@@ -276,7 +293,7 @@ func traceCase(w *wire.Writer, r *pbfrun.Runner, f *file, procs int, skip [3]boo
 			}
 		}
 	}
-	c.Desc = map[string]interface{}{"kind": "trace", "file_seed": f.seed, "procs": procs, "skip": skip, "by_filter": byFilter, "frames": fds,
+	c.Desc = map[string]interface{}{"reader_kind": lastReader, "kind": "trace", "file_seed": f.seed, "procs": procs, "skip": skip, "by_filter": byFilter, "frames": fds,
 		"objs": o.Objs, "decoded_objects": o.Canon, "expected_objects": expected, "fsb": o.FSB, "pfsb": o.PFSB, "err": o.ErrText, "file": f.desc}
 	c.Trivial = len(o.Objs) == 0
 	return c, nil
@@ -302,7 +319,7 @@ func stopsCase(w *wire.Writer, r *pbfrun.Runner, f *file, procs int, skip [3]boo
 	for i := range units {
 		units[i] = i
 	}
-	obs, err := r.Run(pbfrun.Job{Data: f.data, Procs: procs, Skip: jobSkip(skip), Filter: jobFilter(skip), Mode: "stop", Units: units})
+	obs, err := r.Run(pbfrun.Job{Reader: nextReader(), Data: f.data, Procs: procs, Skip: jobSkip(skip), Filter: jobFilter(skip), Mode: "stop", Units: units})
 	if err != nil {
 		return nil, err
 	}
@@ -361,7 +378,7 @@ func stopsCase(w *wire.Writer, r *pbfrun.Runner, f *file, procs int, skip [3]boo
 		c.Int(int64(s.PErr))
 		c.Bool(s.Short)
 	}
-	c.Desc = map[string]interface{}{"kind": "stop at every k and resume", "file_seed": f.seed, "procs": procs, "skip": skip, "by_filter": byFilter,
+	c.Desc = map[string]interface{}{"reader_kind": lastReader, "kind": "stop at every k and resume", "file_seed": f.seed, "procs": procs, "skip": skip, "by_filter": byFilter,
 		"size": len(f.data), "n_objects": len(all), "frames": fds, "runs": runs, "file": f.desc}
 	c.Trivial = len(all) == 0
 	w.Stats["stops:positions"] += len(units)
@@ -497,6 +514,9 @@ func main() {
 		c.Canary, c.Class = 1, "canary"
 		c.Toks[len(c.Toks)-2] ^= 2 // perr
 		w.Add(c)
+	}
+	for k, v := range readerUse {
+		w.Stats[fmt.Sprintf("reader_kind=%d", k)] = v
 	}
 	w.Stats["runner:crashes"] = r.Crashes
 	w.Stats["runner:hangs"] = r.Hangs
